@@ -342,6 +342,8 @@ def r3_verbatim(ctx, handlers):
         f = imp.methods[fname]
         calls = [c for c in walk_local(f.node) if isinstance(c, ast.Call) and F.is_name(c.func, clsname)]
         expect = argname or (f.params[2] if fname != '_compute_metacomment_token' else f.params[1])
+        if not calls:
+            raise AnalysisError(f'{f.loc}: {clsname} is not constructed in {fname} any more (moved into a helper that is not inlined): not followed')
         ok = len(calls) == 1 and calls[0].args and F.is_name(calls[0].args[0], expect)
         if not ok and fname == 'run' and len(calls) == 1:
             # the cell of the column loop under whatever name it reaches the constructor (helpers of the row loop inlined)
